@@ -386,14 +386,22 @@ def main():
     for o in viol:
         rp = os.path.join(VERIF, "replays", "%s-%s.json" % (pid, re.sub(r"[^A-Za-z0-9_.#-]+", "_", o["id"])))
         f = frec[o["fn"]]
+        wmap = json.load(open(os.path.join(CONTRACTS, "witness_map.json")))
+        wit = [r.get("witnesses", {}).get(w) for w in wmap.get(o["id"], [])]
+        wit = [w for w in wit if w and w.get("fails")]
         json.dump({"property": pid, "obligation": o["id"], "clause": o["text"], "kind": o["kind"],
                    "source_function": o["fn"], "source": "%s:%d-%d" % (f["src_file"], f["src_line_start"],
                                                                        f["src_line_end"]),
                    "verifier": "verus", "verifier_output": failed[o["id"]],
                    "counterexample": None,
-                   "note": "Verus gives no counterexample; no failing input was found by the witness library"},
+                   "failing_input_replayed_on_real_code": wit[0] if wit else None,
+                   "replay_cmd": "replay/target/release/ppg2_replay %s" % wit[0]["witness"] if wit else None,
+                   "note": "Verus gives no counterexample. " + ("The witness scenario attached to this obligation was "
+                           "executed against the real engine.rs and contradicts the property." if wit else
+                           "No failing input was found by the witness library.")},
                   open(rp, "w"), indent=1)
-        print("VIOLATION property=%s replay=%s obligation=%s no-failing-input-found" % (pid, rp, o["id"]))
+        print("VIOLATION property=%s replay=%s obligation=%s%s" % (pid, rp, o["id"],
+              "" if wit else " no-failing-input-found"))
         rc = 1
     cov["violated_obligations"] = [o["id"] for o in viol]
     if rc == 0 and (tool_errors or n_ob == 0):
